@@ -20,7 +20,8 @@ The only hypotheses are `ParserWF e`, the day range 1900–9999 (outside: `C01_m
        hold, within and beyond representability (OH/Proofs/EvalSpecDatedAll.lean: `year_before_offset` pinned at the
        first/last year of the calendar, windows cut by the calendar, occurrences pinned at `NaiveDate::MIN/MAX`);
      - both dates carry a year: NO condition;
-     - a start with a year before a fixed yearless end: both day offsets within ±30 000 000 days;
+     - a start with a year (fixed or Easter) before a fixed yearless end: start offset within ±92 000 000 days (the
+       shifted start is not pinned), ANY end offset (OH/Proofs/EvalSpecDatedYearAll.lean);
      - one of the two dates is Easter: both day offsets within ±300 000 days (all years looked at are ≥ 0) — or,
        beyond representability, a yearless start moved by +99 500 000 days or more (nothing ever starts before
        10000-01-01: both sides say "never", OH/Proofs/DatedFar.lean)
@@ -40,13 +41,12 @@ The only hypotheses are `ParserWF e`, the day range 1900–9999 (outside: `C01_m
  * `C04_schedule_total`: `daySchedule` never fails under `ParserWF` alone (every day, context, offset).
 No offset-scope hypothesis is left: the specification shifts days with the same saturating shift as the
 (repaired) code, see `OH.Spec.shift`, `OH.Spec.weekdayOk` and the history note below.
-NOT proved (rests on oracle + correspondence): day offsets beyond ±30 000 000 days after a start with a year,
-beyond ±300 000 days next to Easter; nothing is known to fail there — since /repo 5cdd92e also beyond about
+NOT proved (rests on oracle + correspondence): a start with a year moved by more than ±92 000 000 days before a
+yearless end; day offsets beyond ±300 000 days next to a yearless Easter; nothing is known to fail there — since /repo 5cdd92e also beyond about
 ±92 000 000 days, where `d - offset` or a year of the window around it is not representable and a bound simply has
 no occurrence: lean/scratch/BFDated.lean (offsets up to ±2·10⁸: 0 mismatch with the specification, 0 unsound hint)
 and the oracle on generated offsets up to ±10⁹ days.  Why the
-proofs stop there: `dated_year_yearless_eq` (a start with a year) has not been ported to the saturation-aware
-machinery of EvalSpecDatedWide/All.lean; Easter: `easter()` of a negative year is not a date of March/April, it
+proofs stop there: a start with a year pinned at `NaiveDate::MIN/MAX` is a case analysis not written; Easter: `easter()` of a negative year is not a date of March/April, it
 can be `Feb 30` — no occurrence (notes/DATED-BOUND.md).
 Older clauses kept below:
  * outside 1900-01-01 … 9999-12-31 both the model and the specification say closed;
@@ -195,9 +195,9 @@ def exprDatedSafe (e : Expr) (d : Int) : Bool :=
 
 open OH.Proofs.EvalSpec in
 /-- rule-level class, no reference to the day (see `OH.Proofs.EvalSpec.datedPlain`): day offsets within
-±30 000 000 days from a start with a year to a yearless end, ±300 000 days when a bound is Easter (or a yearless
-start moved by ≥ +99 500 000 days), ANY offsets between two fixed yearless dates and when both bounds carry a year;
-the range has a defined meaning.  Nothing else. -/
+ANY offsets between two fixed yearless dates and when both bounds carry a year; a start with a year before a fixed
+yearless end: start offset within ±92 000 000 days, any end offset; ±300 000 days when a bound is a yearless Easter
+(or a yearless start moved by ≥ +99 500 000 days); the range has a defined meaning.  Nothing else. -/
 def exprDatedPlain (e : Expr) : Bool :=
   e.all (fun r => r.day.monthday.all (fun m => match m with
     | .date a so b eo => datedPlain a so b eo
@@ -284,8 +284,8 @@ theorem C01_schedule_refines_spec_inyear (ctx : Ctx) (e : Expr) (d : Int) (hwf :
   C01_schedule_refines_spec_window ctx e d hwf h1 h2 hds
 
 /-- C01 for every day of 1900–9999, for expressions in the RULE-LEVEL class `exprDatedPlain`: every dated
-range with a defined meaning whose day offsets are any (two fixed yearless dates; two bounds with a year), within
-±30 000 000 days (a start with a year before a yearless end), ±300 000 days (a bound is Easter)
+range with a defined meaning whose day offsets are any (two fixed yearless dates; two bounds with a year), a start
+offset within ±92 000 000 days (a start with a year before a fixed yearless end), within ±300 000 days (Easter)
 — (`Jan 10-Feb 20`, `Dec 24-Jan 2`,
 `Feb 29`, `2020 Dec 24-Jan 2`, `easter -47 days-easter +60 days`, `Jan 1 -10 days-Dec 25`,
 `Jan 01 +400 days-Jan 10 +770 days`, `Feb 29 -1000 days-Feb 29 +10 days`, `2020 Jan 1-Feb 1 +800 days`) -/
@@ -383,7 +383,7 @@ two years after a start with a year: all inside the rule-level class (`Jan 1 +80
 `Jan 01 -Mo -92000000 days-Dec 31 +Su +92000000 days`, `Jan 01 +92000000 days-Jan 10 -92000000 days`,
 `Feb 29 -10¹² days-Feb 29 +92000000 days`, `Jan 01 +9·10¹⁸ days-Jan 10 -Mo -9·10¹⁸ days`,
 `Feb 29 -200000000 days-Feb 29 +200000000 days`,
-`2020 Jan 1 -30000000 days-Feb 1 +30000000 days`, `easter -300000 days-easter +300000 days`, and with two years
+`2020 Jan 1 -92000000 days-Feb 1 +9·10¹⁸ days`, `2024 easter +92000000 days-Dec 31 -150000000 days`, `easter -300000 days-easter +300000 days`, and with two years
 any offsets: `2020 Jan 1 -1000000000 days-2021 easter +1000000000 days`; beyond representability:
 `easter +99500000 days-Dec 31 -Mo -9000000000000000000 days`) -/
 example :
@@ -397,7 +397,8 @@ example :
                             .date (.fixed none 2 29) ⟨.none, -1000000000000⟩ (.fixed none 2 29) ⟨.none, 92000000⟩,
                             .date (.fixed none 1 1) ⟨.none, 9000000000000000000⟩ (.fixed none 1 10) ⟨.prev 0, -9000000000000000000⟩,
                             .date (.fixed none 2 29) ⟨.none, -200000000⟩ (.fixed none 2 29) ⟨.none, 200000000⟩,
-                            .date (.fixed (some 2020) 1 1) ⟨.none, -30000000⟩ (.fixed none 2 1) ⟨.none, 30000000⟩,
+                            .date (.fixed (some 2020) 1 1) ⟨.none, -92000000⟩ (.fixed none 2 1) ⟨.none, 9000000000000000000⟩,
+                            .date (.easter (some 2024)) ⟨.none, 92000000⟩ (.fixed none 12 31) ⟨.none, -150000000⟩,
                             .date (.easter none) ⟨.none, -300000⟩ (.easter none) ⟨.none, 300000⟩,
                             .date (.fixed (some 2020) 1 1) ⟨.none, -1000000000⟩ (.easter (some 2021)) ⟨.none, 1000000000⟩,
                             .date (.easter none) ⟨.none, 99500000⟩ (.fixed none 12 31) ⟨.prev 0, -9000000000000000000⟩], [], []⟩,
@@ -406,7 +407,7 @@ example :
 
 /-- just outside the class: one day more, on a fixed date, after a start with a year and on Easter -/
 example :
-    let e0 : Expr := [⟨⟨[], [.date (.fixed (some 2020) 1 1) ⟨.none, 30000001⟩ (.fixed none 12 31) ⟨.none, 0⟩], [], []⟩,
+    let e0 : Expr := [⟨⟨[], [.date (.fixed (some 2020) 1 1) ⟨.none, 92000001⟩ (.fixed none 12 31) ⟨.none, 0⟩], [], []⟩,
       [TimeSpan.fullDay], .open, .normal, []⟩]
     exprDatedPlain e0 = false := by decide +kernel
 example :
